@@ -124,6 +124,11 @@ def clusterStep (s : ClusterSt) (toks : List String) : ClusterSt × String :=
       (s.setQueue a nd.id (q.drop k), s!"dropped={min k q.length}")
     | _, _ => (s, "bad-op")
   | ["queues"] => (s, queuesDesc s)
+  | ["qcof", name, blk] =>
+    -- the certificate a (proposed, hence public) block carries, under a name of its own
+    match s.w.c.blocks.lookup blk with
+    | some b => ({ s with w := { s.w with c := { s.w.c with qcs := (name, b.qc) :: s.w.c.qcs } } }, "ok")
+    | none => (s, "bad-op")
   | t :: rest =>
     if t.startsWith "@" then
       match (dropStr 1 t).toNat?.bind s.node with
@@ -137,5 +142,117 @@ def clusterStep (s : ClusterSt) (toks : List String) : ClusterSt × String :=
 
 -- @family "cluster" clusterFam
 def clusterFam : Fam := { σ := ClusterSt, init := {}, step := clusterStep }
+
+end HsVerif.Drv
+
+namespace HsVerif.Drv
+open HsVerif.Model
+
+/-! Safety oracle for the cluster (C01), judged on the IMPLEMENTATION's answers and the script
+alone (no model transition is consulted): every replica's commit log is a chain from genesis
+(each committed block's parent is the block committed before it), any two replicas' logs are
+prefix-related, and every vote obeys the lock rule relative to the replica's earlier votes.
+Blocks are known from the script's `block` / `wblock` lines and from the `propose(...)` effects the
+implementation reports.  The ledger verdict is void (pass) when the script signs with the key of a
+replica that has a node, or with the keys of more than f replicas: outside the fault model. -/
+structure ClusterOr where
+  n : Nat := 0
+  nodes : List (Nat × Bool) := []            -- node ↦ ruleset keeps a lock (chained / simple)
+  blocks : List (String × (Nat × String)) := [("G", (0, "G"))]   -- name ↦ (view, parent name)
+  logs : List (Nat × List String) := []      -- node ↦ committed block names, oldest first
+  signedBy : List Nat := []                  -- ids whose keys the script used
+  voted : List (Nat × List String) := []     -- node ↦ names of the blocks it signed, oldest first
+
+def isPrefixStr : List String → List String → Bool
+  | [], _ => true
+  | _ :: _, [] => false
+  | a :: as, b :: bs => a == b && isPrefixStr as bs
+
+def commitsOf (part : List String) : List String :=
+  part.filterMap fun t => stripParen "commit(" t
+
+/-- "propose(P6,v=6,parent=W5,qc=..." ↦ (P6, 6, W5) -/
+def proposeOf (t : String) : Option (String × Nat × String) :=
+  if !t.startsWith "propose(" then none else
+  match splitChar ',' (dropStr 8 t) with
+  | nm :: v :: par :: _ =>
+    if v.startsWith "v=" && par.startsWith "parent=" then (dropStr 2 v).toNat?.map fun vv => (nm, vv, dropStr 7 par) else none
+  | _ => none
+
+def extName (blocks : List (String × (Nat × String))) : Nat → String → String → Bool
+  | 0, _, _ => false
+  | k + 1, w, l =>
+    let viewOf (x : String) : Nat := ((blocks.lookup x).map (·.1)).getD 0
+    w == l || (viewOf w > viewOf l && extName blocks k (((blocks.lookup w).map (·.2)).getD "?") l)
+
+def clusterOracleStep (o : ClusterOr) (toks : List String) : ClusterOr × String :=
+  let (lhs, rhs) := splitArrow toks
+  let okAns := rhs.head? == some "ok"
+  match lhs with
+  | "cfg" :: _ :: n :: _ => ({ n := n.toNat?.getD 0 }, "pass")
+  | "node" :: i :: rest =>
+    if !okAns then (o, "pass") else
+    match i.toNat? with
+    | some i => ({ o with nodes := (i, field "rules" rest != some "fasthotstuff") :: o.nodes }, "pass")
+    | none => (o, "pass")
+  | ["sign", r, _, _] => ({ o with signedBy := match r.toNat? with | some r => if o.signedBy.contains r then o.signedBy else r :: o.signedBy | none => o.signedBy }, "pass")
+  | ["create-pc", r, _, _] => ({ o with signedBy := match r.toNat? with | some r => if o.signedBy.contains r then o.signedBy else r :: o.signedBy | none => o.signedBy }, "pass")
+  | kind :: name :: rest =>
+    if (kind == "block" || kind == "wblock") then
+      if !okAns then (o, "pass") else
+      match field "parent" rest, natField "view" rest with
+      | some p, some v => ({ o with blocks := if (o.blocks.lookup name).isSome then o.blocks else (name, (v, p)) :: o.blocks }, "pass")
+      | _, _ => (o, "pass")
+    else
+    let node : Option Nat :=
+      if kind.startsWith "@" then (dropStr 1 kind).toNat? else if kind == "pump" then (rest.head?).bind (·.toNat?) else none
+    match node with
+    | none => (o, "pass")
+    | some i =>
+    if rhs.contains "panic" then (o, s!"fail panic on {joinWith " " lhs}") else
+    let effs := rhs.filter (· != ";")
+    -- blocks the implementation proposes
+    let addProp (bl : List (String × (Nat × String))) (t : String) : List (String × (Nat × String)) :=
+      match proposeOf t with
+      | some (nm, v, par) => if (bl.lookup nm).isSome then bl else (nm, (v, par)) :: bl
+      | none => bl
+    let o := { o with blocks := effs.foldl addProp o.blocks }
+    let parName (nm : String) : String := ((o.blocks.lookup nm).map (·.2)).getD "?"
+    let viewOf (nm : String) : Nat := ((o.blocks.lookup nm).map (·.1)).getD 0
+    -- lock rule on the replica's own signing log
+    let newVotes := effs.filterMap fun t => stripParen "sign(blk:" t
+    let isLockRules := (o.nodes.lookup i).getD false
+    let old := (o.voted.lookup i).getD []
+    let (votedNow, bad) := newVotes.foldl (fun (acc : List String × Option String) w =>
+      match acc.2 with
+      | some _ => acc
+      | none =>
+        let locks := "G" :: acc.1.map fun x => parName (parName x)
+        let l := locks.foldl (fun best c => if viewOf c > viewOf best then c else best) "G"
+        let known := (o.blocks.lookup w).isSome && locks.all fun c => (o.blocks.lookup c).isSome
+        let ok := !isLockRules || !known || viewOf (parName w) > viewOf l || extName o.blocks 300 w l
+        (acc.1 ++ [w], if ok then none else some s!"replica {i} voted for {w} (parent {parName w}, view {viewOf (parName w)}) although its earlier votes lock it on {l} (view {viewOf l})")) (old, none)
+    let o1 := { o with voted := (i, votedNow) :: o.voted.filter (·.1 != i) }
+    if let some m := bad then (o1, "fail lock-rule " ++ m) else
+    let newCommits := commitsOf effs
+    if newCommits.isEmpty then (o1, "pass") else
+    let oldLog := (o1.logs.lookup i).getD []
+    let log := oldLog ++ newCommits
+    let o2 := { o1 with logs := (i, log) :: o1.logs.filter (·.1 != i) }
+    let f := (o2.n - 1) / 3
+    let void := o2.signedBy.length > f || o2.signedBy.any (fun r => (o2.nodes.lookup r).isSome)
+    let rec chainOk (prev : String) : List String → Option String
+      | [] => none
+      | b :: rest => if parName b == prev then chainOk b rest else some s!"{b} (parent {parName b}) committed after {prev}"
+    match chainOk (oldLog.getLast?.getD "G") newCommits with
+    | some bad => (o2, if void then "pass" else s!"fail commit-not-a-chain replica {i}: {bad}")
+    | none =>
+      match o2.logs.find? (fun p => p.1 != i && !(isPrefixStr p.2 log || isPrefixStr log p.2)) with
+      | some p => (o2, if void then "pass" else s!"fail ledgers-diverge replica {i} committed {log} but replica {p.1} committed {p.2}")
+      | none => (o2, "pass")
+  | _ => (o, "pass")
+
+-- @family "cluster.oracle" clusterOracle
+def clusterOracle : Fam := { σ := ClusterOr, init := {}, step := clusterOracleStep }
 
 end HsVerif.Drv
